@@ -83,6 +83,10 @@ def variants(cls, base, schema, types, mins, rnd):
             vals.append(("length-over-limit", "accept" if t["k"] == "nag" else "reject", "x" * (t["len"] + 1)))
             if t["len"] >= 5:
                 vals.append(("length-decoded-at-limit", "accept", "&amp;" + "x" * (t["len"] - 1)))
+            over = "accept" if t["k"] == "nag" else "reject"
+            vals.append(("length-over-limit-with-entity", over, "&amp;" + "x" * t["len"]))
+            vals.append(("length-over-limit-with-ampersand", over, "x" * t["len"] + "&"))
+            vals.append(("length-over-limit-with-lt-entity", over, "x" * t["len"] + "&lt;"))
         elif t["k"] == "int" and t["len"] != -1:
             vals.append(("digits-at-limit", "accept", "9" * t["len"]))
             vals.append(("digits-over-limit", "reject", "1" + "0" * t["len"]))
@@ -177,7 +181,7 @@ def run(ctx):
         vs = variants(cls, mins[cls], schema, types, mins, rnd)
         for lab, exp, node, routes in vs:
             doc = dc.from_nested(node)
-            for route in routes + (("kwnative",) if "kw" in routes else ()):
+            for route in routes + (("kwnative", "kwnone") if "kw" in routes else ()):
                 e = dc.ev_doc("v%d%s" % (n, route[:3]), doc, schema, route=route, label="%s %s" % (cls, lab), expect=exp)
                 if e is None:
                     continue
@@ -185,6 +189,41 @@ def run(ctx):
                 evs.append(e)
                 ctx.nontrivial.add((cls, lab, route))
             n += 1
+    # depth 2: a violating (or boundary) variant of a class embedded as an OPTIONAL child or list member of a parent:
+    # the parent must be refused as well (an invalid child is never silently dropped)
+    parents = {}
+    for pcls in classes:
+        for a in schema[pcls]["attrs"]:
+            if a["k"] in ("sub", "lagg") and not a["req"] and a["cls"] in schema:
+                parents.setdefault(a["cls"], []).append((pcls, a))
+    nested = 0
+    for cls in classes:
+        if cls not in parents:
+            continue
+        vs = [v for v in variants(cls, mins[cls], schema, types, mins, rnd) if v[1] in ("reject", "accept")]
+        rej = [v for v in vs if v[1] == "reject"]
+        acc = [v for v in vs if v[1] == "accept"]
+        pick = rnd.sample(rej, min(len(rej), 3 if quick else 8)) + rnd.sample(acc, min(len(acc), 1 if quick else 3))
+        for lab, exp, node, routes in pick:
+            pcls, pa = rnd.choice(parents[cls])
+            pnode = add_child(mins[pcls], pcls, pa, schema, types, mins)
+            placed = False
+            for i, k in enumerate(pnode[2]):
+                if k[0] == pa["tag"] and not placed:
+                    pnode[2][i] = node
+                    placed = True
+            if not placed:
+                continue
+            doc = dc.from_nested(pnode)
+            for route in ("etree",) + (("kw",) if "kw" in routes else ()):
+                e = dc.ev_doc("n%d%s" % (nested, route[0]), doc, schema, route=route, label="%s nested in %s: %s" % (cls, pcls, lab), expect=exp)
+                if e is None:
+                    continue
+                e["unknownkw"] = False
+                evs.append(e)
+                ctx.nontrivial.add((cls, pcls, lab, route))
+            nested += 1
+    ctx.extra["nested_variants"] = nested
     ctx.extra["variants"] = n
     # keyword route only: foreign list member, bare string member, unknown keyword
     import ofxtools.models as M
